@@ -150,6 +150,15 @@ impl Session {
         self.repl.get_variables()
     }
 
+    /// What the CLI does after a runtime error: a fresh `Repl` on the same, used `Environment`
+    /// (the old REPL process and everything merged so far stay behind).
+    pub fn restart_repl(&mut self) -> Result<(), String> {
+        let resolver = Box::new(PackageResolver::memory(HashMap::new()));
+        self.repl = Repl::new(&mut self.sys.env, resolver, super::system::builtin_registry(false))
+            .map_err(|e| format!("Repl::new: {}", e))?;
+        self.settle()
+    }
+
     pub fn close(self) {
         self.sys.shutdown();
     }
